@@ -398,6 +398,22 @@ func (m *C18Monitor) AfterPass(r *Runner, pv *PassView) error {
 
 // AfterStep: at quiescence every existing, renderable template has produced its target (bounded liveness).
 func (m *C18Monitor) AfterStep(r *Runner, idx int, st Step) error {
+	// "deleting the ObjectTemplate releases its watches": a template that is gone (also one that never had a successful pass
+	// and so, possibly, no finalizer to hold it back) must not own watch registrations any more
+	live := map[string]bool{}
+	for _, cluster := range []bool{false, true} {
+		if t := r.W.Store.PeekNoCopy(otKey(cluster)); t != nil {
+			live[engine.UID(t)] = true
+		}
+	}
+	for uid := range m.Spec {
+		if !live[uid] {
+			if n := r.W.Cache.OwnerCount(uid); n != 0 {
+				return Violf("C18", "watches-not-released", "after step %d (%s): the ObjectTemplate with uid %s no longer exists but still holds %d watch registrations", idx, st.Op, uid, n)
+			}
+			r.Labels["c18-deleted-template-checked"] = true
+		}
+	}
 	if st.Op != "quiesce" || !r.LastQuiesceOK {
 		return nil
 	}
